@@ -8,12 +8,38 @@ import OpusProofs.DecSkelMsFull
 namespace Opus.RepackProofs
 open Opus Opus.Framing Opus.FramingSpec Opus.FramingProofs Opus.Repack Opus.Ext Opus.DecSkel
 
-/-- The frame-offset shift of the first stream of `ps` (0 for an empty list). -/
-def firstShift : List Packet → Int
-  | [] => 0
-  | p :: rest =>
-    ((view (decide (rest ≠ [])) (canonPacket p.toc p.frames)).payloadOffset : Int) -
-      ((view (decide (rest ≠ [])) p).payloadOffset : Int)
+/-- Two packets the decoder cannot tell apart except for the address of the frame data: both valid, the
+    same frames, the same configuration bits. -/
+structure PktRel (p q : Packet) : Prop where
+  vp : Valid p
+  vq : Valid q
+  frames : q.frames = p.frames
+  toc : q.toc / 4 = p.toc / 4
+
+/-- Stream by stream related multistream packets. -/
+def PairRel : List Packet → List Packet → Prop
+  | [], [] => True
+  | p :: ps, q :: qs => PktRel p q ∧ PairRel ps qs
+  | _, _ => False
+
+theorem PairRel.nil_iff {ps qs : List Packet} (h : PairRel ps qs) : qs = [] ↔ ps = [] := by
+  cases ps <;> cases qs <;> simp_all [PairRel]
+
+theorem PairRel.length {ps qs : List Packet} : PairRel ps qs → qs.length = ps.length := by
+  induction ps generalizing qs with
+  | nil => intro h; cases qs <;> simp_all [PairRel]
+  | cons p ps ih => intro h; cases qs with
+    | nil => simp [PairRel] at h
+    | cons q qs => simp [PairRel] at h; simp [ih h.2]
+
+/-- The frame-offset shift of the first stream (0 for empty lists). -/
+def firstShift2 : List Packet → List Packet → Int
+  | p :: rest, q :: _ =>
+    ((view (decide (rest ≠ [])) q).payloadOffset : Int) - ((view (decide (rest ≠ [])) p).payloadOffset : Int)
+  | _, _ => 0
+
+/-- The frame-offset shift of the first stream of `ps` against its canonical form. -/
+def firstShift (ps : List Packet) : Int := firstShift2 ps (ps.map fun p => canonPacket p.toc p.frames)
 
 /-- `l2` is `l1` with the packet offsets of the i-th log shifted by some `d_i`. -/
 def LogsRel (l1 l2 : List (List Ev)) : Prop :=
@@ -43,33 +69,38 @@ theorem logsRel_append {l1 l2 : List (List Ev)} (h : LogsRel l1 l2) (a : List Ev
   rw [List.zipWith_append (by omega)]
   rfl
 
-theorem msFullLoop_unpad (os1 os2 : Nat → Oracle) (l : Layout.ChannelLayout) (fec : Int) (sc : Bool) (bufCap : Int) :
-    ∀ (sts : List DecState) (ps : List Packet) (s : Nat) (fsz : Int) (a1 a2 : MsAcc),
-    (∀ p ∈ ps, Valid p) → (ps ≠ [] → s + ps.length = l.nbStreams) →
-    (∀ i, i < ps.length → OracleShift (os1 (s + i)) (os2 (s + i)) (firstShift (ps.drop i))) →
+theorem msFullLoop_rel (os1 os2 : Nat → Oracle) (l : Layout.ChannelLayout) (fec : Int) (sc : Bool) (bufCap : Int) :
+    ∀ (sts : List DecState) (ps qs : List Packet) (s : Nat) (fsz : Int) (a1 a2 : MsAcc),
+    PairRel ps qs → (ps ≠ [] → s + ps.length = l.nbStreams) →
+    (∀ i, i < ps.length → OracleShift (os1 (s + i)) (os2 (s + i)) (firstShift2 (ps.drop i) (qs.drop i))) →
     AccRel a1 a2 →
     OutRel (msFullLoop os1 l fec sc false bufCap sts s (msSerialize ps) (msSerialize ps).length fsz a1)
-           (msFullLoop os2 l fec sc false bufCap sts s (msSerialize (ps.map fun p => canonPacket p.toc p.frames))
-              (msSerialize (ps.map fun p => canonPacket p.toc p.frames)).length fsz a2) := by
+           (msFullLoop os2 l fec sc false bufCap sts s (msSerialize qs) (msSerialize qs).length fsz a2) := by
   intro sts
   induction sts with
   | nil =>
-    intro ps s fsz a1 a2 _ _ _ hrel
+    intro ps qs s fsz a1 a2 _ _ _ hrel
     simp only [msFullLoop]
     have hrel' : AccRel { a1 with copies := a1.copies ++ Layout.mutedCalls fsz (l.mapping.take l.nbChannels) 0 }
         { a2 with copies := a2.copies ++ Layout.mutedCalls fsz (l.mapping.take l.nbChannels) 0 } :=
       ⟨hrel.sts, by simp [hrel.copies], hrel.rets, hrel.logs⟩
     exact hrel'.out _ _
   | cons st rest ih =>
-    intro ps s fsz a1 a2 hv hcount hos hrel
+    intro ps qs s fsz a1 a2 hpr hcount hos hrel
     cases ps with
     | nil =>
-      simp only [msFullLoop, List.map_nil, msSerialize, List.length_nil]
+      have hq : qs = [] := (hpr.nil_iff).mpr rfl
+      subst hq
+      simp only [msFullLoop, msSerialize, List.length_nil]
       simp only [Bool.false_eq_true, not_false_eq_true, true_and]
       rw [if_pos (by omega), if_pos (by omega)]
       exact hrel.out _ _
     | cons p ps' =>
-      have hpv := hv p (by simp)
+      cases qs with
+      | nil => simp [PairRel] at hpr
+      | cons q qs' =>
+      obtain ⟨hpq, hpr'⟩ := hpr
+      have hpv := hpq.vp
       have hcnt := hcount (by simp)
       simp only [List.length_cons] at hcnt
       have hsd : decide (s ≠ l.nbStreams - 1) = decide (ps' ≠ []) := by
@@ -78,24 +109,28 @@ theorem msFullLoop_unpad (os1 os2 : Nat → Oracle) (l : Layout.ChannelLayout) (
         · have : 0 < ps'.length := List.length_pos_iff.mpr hr
           simp [hr]; omega
       have hos0 := hos 0 (by simp)
-      simp only [Nat.add_zero, List.drop_zero, firstShift] at hos0
-      -- the two byte strings and their first streams
+      simp only [Nat.add_zero, List.drop_zero, firstShift2] at hos0
       have hr1 : decide (ps' ≠ []) = false → msSerialize ps' = [] := by
         intro h; have : ps' = [] := by simpa using h
         rw [this]; rfl
-      have hr2 : decide (ps' ≠ []) = false → msSerialize (ps'.map fun p => canonPacket p.toc p.frames) = [] := by
+      have hr2 : decide (ps' ≠ []) = false → msSerialize qs' = [] := by
         intro h; have : ps' = [] := by simpa using h
-        rw [this]; rfl
-      have hsd2 : decide (ps'.map (fun p => canonPacket p.toc p.frames) ≠ []) = decide (ps' ≠ []) := by simp
-      rw [List.map_cons, msSerialize_cons, msSerialize_cons, hsd2]
+        rw [(hpr'.nil_iff).mpr this]; rfl
+      have hsd2 : decide (qs' ≠ []) = decide (ps' ≠ []) := by
+        have := hpr'.nil_iff
+        by_cases h : ps' = []
+        · simp [h, this.mpr h]
+        · have h' : qs' ≠ [] := fun hq => h (this.mp hq)
+          simp [h, h']
+      rw [msSerialize_cons, msSerialize_cons, hsd2]
       generalize hsdv : decide (ps' ≠ []) = sd at hsd hr1 hr2 hos0 ⊢
-      have hcv := canonPacket_valid p hpv
+      have hcv := hpq.vq
       have hp1 := parse_complete sd p hpv _ hr1
-      have hp2 := parse_complete sd _ hcv _ hr2
-      have hfr : (canonPacket p.toc p.frames).frames = p.frames := outPacket_frames _ _ _ _ _
-      have ht : (canonPacket p.toc p.frames).toc / 4 = p.toc / 4 := outPacket_toc _ _ _ _ _
+      have hp2 := parse_complete sd q hcv _ hr2
+      have hfr : q.frames = p.frames := hpq.frames
+      have ht : q.toc / 4 = p.toc / 4 := hpq.toc
       obtain ⟨t1, ht1⟩ := serialize_cons sd p (msSerialize ps')
-      obtain ⟨t2, ht2⟩ := serialize_cons sd (canonPacket p.toc p.frames) (msSerialize (ps'.map fun p => canonPacket p.toc p.frames))
+      obtain ⟨t2, ht2⟩ := serialize_cons sd q (msSerialize qs')
       have hshift := decodeNative_shift (o1 := os1 s) (o2 := os2 s) _ _ sd sd _ _ hp1 hp2
         (by simp only [view, Packet.lens, hfr]) (by simp only [view, hfr])
         (by rw [ht1, ht2]; simp only [List.headD_cons]; exact ht.symm) hos0
@@ -104,11 +139,10 @@ theorem msFullLoop_unpad (os1 os2 : Nat → Oracle) (l : Layout.ChannelLayout) (
       rw [hfresh] at hshift
       obtain ⟨hret, hrun⟩ := hshift
       have hpos1 := serialize_length_pos sd p
-      have hpos2 := serialize_length_pos sd (canonPacket p.toc p.frames)
+      have hpos2 := serialize_length_pos sd q
       have hl1 : (0 : Int) < ((serialize sd p ++ msSerialize ps').length : Int) := by
         rw [List.length_append]; omega
-      have hl2 : (0 : Int) < ((serialize sd (canonPacket p.toc p.frames) ++
-          msSerialize (ps'.map fun p => canonPacket p.toc p.frames)).length : Int) := by
+      have hl2 : (0 : Int) < ((serialize sd q ++ msSerialize qs').length : Int) := by
         rw [List.length_append]; omega
       simp only [msFullLoop]
       simp only [Bool.false_eq_true, not_false_eq_true, true_and, if_false]
@@ -117,9 +151,8 @@ theorem msFullLoop_unpad (os1 os2 : Nat → Oracle) (l : Layout.ChannelLayout) (
       generalize hx1 : decodeNative (os1 s) (some (serialize sd p ++ msSerialize ps'))
         ((serialize sd p ++ msSerialize ps').length : Int) { buf := .pcm, off := 0, cap := bufCap } fsz fec sd sc
         { st := st, k := 0, log := [] } = x1 at hret hrun ⊢
-      generalize hx2 : decodeNative (os2 s) (some (serialize sd (canonPacket p.toc p.frames) ++
-          msSerialize (ps'.map fun p => canonPacket p.toc p.frames)))
-        ((serialize sd (canonPacket p.toc p.frames) ++ msSerialize (ps'.map fun p => canonPacket p.toc p.frames)).length : Int)
+      generalize hx2 : decodeNative (os2 s) (some (serialize sd q ++ msSerialize qs'))
+        ((serialize sd q ++ msSerialize qs').length : Int)
         { buf := .pcm, off := 0, cap := bufCap } fsz fec sd sc { st := st, k := 0, log := [] } = x2 at hret hrun ⊢
       rw [hret]
       have hstepRel : ∀ (v : Int) (c1 c2 : MsCall) (cp : List Layout.Call),
@@ -138,27 +171,24 @@ theorem msFullLoop_unpad (os1 os2 : Nat → Oracle) (l : Layout.ChannelLayout) (
         · rw [if_pos hv0, if_pos hv0]
           exact (hstepRel v _ _ _).out _ _
         · rw [if_neg hv0, if_neg hv0]
-          -- packet offsets
           have hpo1 : x1.packetOffset = ((serialize sd p).length : Int) := by
             have := decodeNative_po (os1 s) (serialize sd p ++ msSerialize ps') _ { buf := .pcm, off := 0, cap := bufCap }
               fsz fec sd sc { st := st, k := 0, log := [] } hl1 (view sd p) (by rw [Int.toNat_natCast, List.take_length]; exact hp1) v (by rw [hx1]; exact hr) (by omega)
             rw [hx1] at this; rw [this]; rfl
-          have hpo2 : x2.packetOffset = ((serialize sd (canonPacket p.toc p.frames)).length : Int) := by
-            have := decodeNative_po (os2 s) (serialize sd (canonPacket p.toc p.frames) ++
-                msSerialize (ps'.map fun p => canonPacket p.toc p.frames)) _ { buf := .pcm, off := 0, cap := bufCap }
-              fsz fec sd sc { st := st, k := 0, log := [] } hl2 (view sd (canonPacket p.toc p.frames)) (by rw [Int.toNat_natCast, List.take_length]; exact hp2) v
+          have hpo2 : x2.packetOffset = ((serialize sd q).length : Int) := by
+            have := decodeNative_po (os2 s) (serialize sd q ++ msSerialize qs') _ { buf := .pcm, off := 0, cap := bufCap }
+              fsz fec sd sc { st := st, k := 0, log := [] } hl2 (view sd q) (by rw [Int.toNat_natCast, List.take_length]; exact hp2) v
               (by rw [hx2, hret]; exact hr) (by omega)
             rw [hx2] at this; rw [this]; rfl
           rw [hpo1, hpo2]
           simp only [Int.toNat_natCast, List.drop_left]
           have e1 : ((serialize sd p ++ msSerialize ps').length : Int) - ((serialize sd p).length : Int) = ((msSerialize ps').length : Int) := by
             rw [List.length_append]; push_cast; omega
-          have e2 : ((serialize sd (canonPacket p.toc p.frames) ++ msSerialize (ps'.map fun p => canonPacket p.toc p.frames)).length : Int) -
-              ((serialize sd (canonPacket p.toc p.frames)).length : Int) =
-              ((msSerialize (ps'.map fun p => canonPacket p.toc p.frames)).length : Int) := by
+          have e2 : ((serialize sd q ++ msSerialize qs').length : Int) - ((serialize sd q).length : Int) =
+              ((msSerialize qs').length : Int) := by
             rw [List.length_append]; push_cast; omega
           rw [e1, e2]
-          apply ih ps' (s + 1) v _ _ (fun q hq => hv q (by simp [hq]))
+          apply ih ps' qs' (s + 1) v _ _ hpr'
           · intro hne; have := List.length_pos_iff.mpr hne; omega
           · intro i hi
             have := hos (i + 1) (by simp; omega)
@@ -184,97 +214,156 @@ theorem accRel_refl (a : MsAcc) : AccRel a a :=
         cases e <;> simp [Ev.shiftOff, CeltArgs.shiftOff]⟩⟩
 
 /-- `opus_packet_get_nb_samples` sees only the frame count and the configuration bits. -/
-theorem getNbSamples_canon (sd : Bool) (p : Packet) (hv : Valid p) (fs : Nat) :
-    getNbSamples (serialize sd (canonPacket p.toc p.frames)) fs = getNbSamples (serialize sd p) fs := by
-  have hcv := canonPacket_valid p hv
-  have hfr : (canonPacket p.toc p.frames).frames = p.frames := outPacket_frames _ _ _ _ _
-  have ht : (canonPacket p.toc p.frames).toc / 4 = p.toc / 4 := outPacket_toc _ _ _ _ _
-  have h1 := getNbFrames_serialize sd p hv []
-  have h2 := getNbFrames_serialize sd _ hcv []
+theorem getNbSamples_rel (sd : Bool) (p q : Packet) (h : PktRel p q) (fs : Nat) :
+    getNbSamples (serialize sd q) fs = getNbSamples (serialize sd p) fs := by
+  have h1 := getNbFrames_serialize sd p h.vp []
+  have h2 := getNbFrames_serialize sd q h.vq []
   simp only [List.append_nil] at h1 h2
   obtain ⟨t1, ht1⟩ := serialize_cons sd p []
-  obtain ⟨t2, ht2⟩ := serialize_cons sd (canonPacket p.toc p.frames) []
+  obtain ⟨t2, ht2⟩ := serialize_cons sd q []
   simp only [List.append_nil] at ht1 ht2
   unfold getNbSamples
-  rw [h1, h2, hfr, ht1, ht2]
-  simp only [List.headD_cons, (toc_helpers_congr _ _ ht fs).1]
+  rw [h1, h2, h.frames, ht1, ht2]
+  simp only [List.headD_cons, (toc_helpers_congr _ _ h.toc fs).1]
   rfl
 
-theorem msValidate_canon (fs : Int) : ∀ (ps : List Packet), (∀ p ∈ ps, Valid p) → ∀ (first : Bool) (samples : Int),
-    msValidate fs ps.length first (msSerialize (ps.map fun p => canonPacket p.toc p.frames)) samples =
-      msValidate fs ps.length first (msSerialize ps) samples := by
+theorem msValidate_rel (fs : Int) : ∀ (ps qs : List Packet), PairRel ps qs → ∀ (first : Bool) (samples : Int),
+    msValidate fs ps.length first (msSerialize qs) samples = msValidate fs ps.length first (msSerialize ps) samples := by
   intro ps
   induction ps with
-  | nil => intro _ first samples; rfl
+  | nil => intro qs h first samples; have := (h.nil_iff).mpr rfl; subst this; rfl
   | cons p rest ih =>
-    intro hv first samples
-    have hpv := hv p (by simp)
-    have hcv := canonPacket_valid p hpv
+    intro qs hpr first samples
+    cases qs with
+    | nil => simp [PairRel] at hpr
+    | cons q qs' =>
+    obtain ⟨hpq, hpr'⟩ := hpr
     have hr1 : decide (rest ≠ []) = false → msSerialize rest = [] := by
       intro h; have : rest = [] := by simpa using h
       rw [this]; rfl
-    have hr2 : decide (rest ≠ []) = false → msSerialize (rest.map fun p => canonPacket p.toc p.frames) = [] := by
+    have hr2 : decide (rest ≠ []) = false → msSerialize qs' = [] := by
       intro h; have : rest = [] := by simpa using h
-      rw [this]; rfl
-    have hsd2 : decide (rest.map (fun p => canonPacket p.toc p.frames) ≠ []) = decide (rest ≠ []) := by simp
+      rw [(hpr'.nil_iff).mpr this]; rfl
+    have hsd2 : decide (qs' ≠ []) = decide (rest ≠ []) := by
+      have := hpr'.nil_iff
+      by_cases h : rest = []
+      · simp [h, this.mpr h]
+      · have h' : qs' ≠ [] := fun hq => h (this.mp hq)
+        simp [h, h']
     have hsd : decide (rest.length ≠ 0) = decide (rest ≠ []) := by simp
-    rw [List.map_cons, msSerialize_cons, msSerialize_cons, hsd2]
+    rw [msSerialize_cons, msSerialize_cons, hsd2]
     simp only [List.length_cons, msValidate]
     rw [hsd]
     generalize decide (rest ≠ []) = sd at hr1 hr2
-    have hp1 := parse_complete sd p hpv _ hr1
-    have hp2 := parse_complete sd _ hcv _ hr2
+    have hp1 := parse_complete sd p hpq.vp _ hr1
+    have hp2 := parse_complete sd q hpq.vq _ hr2
     have hpos1 := serialize_length_pos sd p
-    have hpos2 := serialize_length_pos sd (canonPacket p.toc p.frames)
+    have hpos2 := serialize_length_pos sd q
     rw [if_neg (by rw [List.length_append]; omega), if_neg (by rw [List.length_append]; omega), hp1, hp2]
     simp only []
     have hpo1 : (view sd p).packetOffset = (serialize sd p).length := rfl
-    have hpo2 : (view sd (canonPacket p.toc p.frames)).packetOffset = (serialize sd (canonPacket p.toc p.frames)).length := rfl
+    have hpo2 : (view sd q).packetOffset = (serialize sd q).length := rfl
     rw [hpo1, hpo2, List.take_left, List.take_left, List.drop_left, List.drop_left]
-    have hnb : nbSamples (serialize sd (canonPacket p.toc p.frames)) fs = nbSamples (serialize sd p) fs := by
-      unfold nbSamples; rw [getNbSamples_canon sd p hpv]
+    have hnb : nbSamples (serialize sd q) fs = nbSamples (serialize sd p) fs := by
+      unfold nbSamples; rw [getNbSamples_rel sd p q hpq]
     rw [hnb]
     split
     · rfl
-    · exact ih (fun q hq => hv q (by simp [hq])) false _
+    · exact ih qs' hpr' false _
 
-/-- `opus_multistream_decode_native` (C01's `msDecodeFull`) on a multistream packet and on its unpadded form. -/
-theorem msDecodeFull_unpad (os1 os2 : Nat → Oracle) (l : Layout.ChannelLayout) (Fs : Int) (sts : List DecState)
-    (ps : List Packet) (hne : ps ≠ []) (hv : ∀ p ∈ ps, Valid p) (hn : ps.length = l.nbStreams)
-    (hos : ∀ i, i < ps.length → OracleShift (os1 i) (os2 i) (firstShift (ps.drop i)))
+/-- `opus_multistream_decode_native` (C01's `msDecodeFull`) on two stream-by-stream related multistream packets. -/
+theorem msDecodeFull_rel (os1 os2 : Nat → Oracle) (l : Layout.ChannelLayout) (Fs : Int) (sts : List DecState)
+    (ps qs : List Packet) (hne : ps ≠ []) (hpr : PairRel ps qs) (hn : ps.length = l.nbStreams)
+    (hos : ∀ i, i < ps.length → OracleShift (os1 i) (os2 i) (firstShift2 (ps.drop i) (qs.drop i)))
     (frame_size fec : Int) (sc : Bool) :
     OutRel (msDecodeFull os1 l Fs sts (msSerialize ps) (msSerialize ps).length frame_size fec sc)
-           (msDecodeFull os2 l Fs sts (msSerialize (ps.map fun p => canonPacket p.toc p.frames))
-              (msSerialize (ps.map fun p => canonPacket p.toc p.frames)).length frame_size fec sc) := by
-  have hcv : ∀ q ∈ ps.map (fun p => canonPacket p.toc p.frames), Valid q := by
+           (msDecodeFull os2 l Fs sts (msSerialize qs) (msSerialize qs).length frame_size fec sc) := by
+  have hv : ∀ p ∈ ps, Valid p := by
+    intro p hp
+    clear hos hn hne
+    induction ps generalizing qs with
+    | nil => cases hp
+    | cons x xs ih =>
+      cases qs with
+      | nil => simp [PairRel] at hpr
+      | cons y ys =>
+        rcases List.mem_cons.mp hp with rfl | hp
+        · exact hpr.1.vp
+        · exact ih ys hpr.2 hp
+  have hcv : ∀ q ∈ qs, Valid q := by
     intro q hq
-    simp only [List.mem_map] at hq
-    obtain ⟨p, hp, rfl⟩ := hq
-    exact canonPacket_valid p (hv p hp)
+    clear hos hn hne hv
+    induction ps generalizing qs with
+    | nil => have := (hpr.nil_iff).mpr rfl; subst this; cases hq
+    | cons x xs ih =>
+      cases qs with
+      | nil => cases hq
+      | cons y ys =>
+        rcases List.mem_cons.mp hq with rfl | hq
+        · exact hpr.1.vq
+        · exact ih ys hpr.2 hq
+  have hqne : qs ≠ [] := fun h => hne ((hpr.nil_iff).mp h)
   have hge1 := Opus.Layout.msSerialize_length_ge ps hne hv
-  have hge2 := Opus.Layout.msSerialize_length_ge (ps.map fun p => canonPacket p.toc p.frames) (by simpa using hne) hcv
+  have hge2 := Opus.Layout.msSerialize_length_ge qs hqne hcv
   rw [← msSerialize_eq_layout] at hge1 hge2
-  rw [List.length_map] at hge2
+  rw [hpr.length] at hge2
   have hpos : 0 < ps.length := List.length_pos_iff.mpr hne
   have hrefl := accRel_refl ⟨[], [], [], [], []⟩
   unfold msDecodeFull
   by_cases h1 : frame_size ≤ 0
   · rw [if_pos h1, if_pos h1]; exact hrefl.out _ _
   have c0a : ¬ (((msSerialize ps).length : Int) < 0) := by omega
-  have c0b : ¬ (((msSerialize (ps.map fun p => canonPacket p.toc p.frames)).length : Int) < 0) := by omega
+  have c0b : ¬ (((msSerialize qs).length : Int) < 0) := by omega
   rw [if_neg h1, if_neg h1, if_neg c0a, if_neg c0b]
   have hlz1 : ¬ ((msSerialize ps).length : Int) = 0 := by omega
-  have hlz2 : ¬ ((msSerialize (ps.map fun p => canonPacket p.toc p.frames)).length : Int) = 0 := by omega
+  have hlz2 : ¬ ((msSerialize qs).length : Int) = 0 := by omega
   simp only [hlz1, hlz2, decide_false, Bool.false_eq_true, not_false_eq_true, true_and, Int.toNat_natCast, List.take_length]
   have c1 : ¬ (((msSerialize ps).length : Int) < 2 * (l.nbStreams : Int) - 1) := by omega
-  have c2 : ¬ (((msSerialize (ps.map fun p => canonPacket p.toc p.frames)).length : Int) < 2 * (l.nbStreams : Int) - 1) := by omega
+  have c2 : ¬ (((msSerialize qs).length : Int) < 2 * (l.nbStreams : Int) - 1) := by omega
   rw [if_neg c1, if_neg c2]
-  rw [← hn, msValidate_canon Fs ps hv true 0]
+  rw [← hn, msValidate_rel Fs ps qs hpr true 0]
   split
   · exact hrefl.out _ _
   · split
     · exact hrefl.out _ _
-    · exact msFullLoop_unpad os1 os2 l fec sc _ sts ps 0 _ _ _ hv (fun _ => by omega)
+    · exact msFullLoop_rel os1 os2 l fec sc _ sts ps qs 0 _ _ _ hpr (fun _ => by omega)
         (fun i hi => by simpa using hos i hi) hrefl
+
+theorem pairRel_canon : ∀ (ps : List Packet), (∀ p ∈ ps, Valid p) → PairRel ps (ps.map fun p => canonPacket p.toc p.frames)
+  | [], _ => trivial
+  | p :: ps, hv =>
+    ⟨⟨hv p (by simp), canonPacket_valid p (hv p (by simp)), outPacket_frames _ _ _ _ _, outPacket_toc _ _ _ _ _⟩,
+     pairRel_canon ps (fun q hq => hv q (by simp [hq]))⟩
+
+/-- … on a multistream packet and on its unpadded form. -/
+theorem msDecodeFull_unpad (os1 os2 : Nat → Oracle) (l : Layout.ChannelLayout) (Fs : Int) (sts : List DecState)
+    (ps : List Packet) (hne : ps ≠ []) (hv : ∀ p ∈ ps, Valid p) (hn : ps.length = l.nbStreams)
+    (hos : ∀ i, i < ps.length → OracleShift (os1 i) (os2 i) (firstShift (ps.drop i)))
+    (frame_size fec : Int) (sc : Bool) :
+    OutRel (msDecodeFull os1 l Fs sts (msSerialize ps) (msSerialize ps).length frame_size fec sc)
+           (msDecodeFull os2 l Fs sts (msSerialize (ps.map fun p => canonPacket p.toc p.frames))
+              (msSerialize (ps.map fun p => canonPacket p.toc p.frames)).length frame_size fec sc) :=
+  msDecodeFull_rel os1 os2 l Fs sts ps _ hne (pairRel_canon ps hv) hn
+    (fun i hi => by have := hos i hi; unfold firstShift at this; rwa [List.map_drop] at this) frame_size fec sc
+
+theorem pairRel_last (pre : List Packet) (hv : ∀ p ∈ pre, Valid p) (a b : Packet) (h : PktRel a b) :
+    PairRel (pre ++ [a]) (pre ++ [b]) := by
+  induction pre with
+  | nil => exact ⟨h, trivial⟩
+  | cons p ps ih =>
+    exact ⟨⟨hv p (by simp), hv p (by simp), rfl, rfl⟩, ih (fun q hq => hv q (by simp [hq]))⟩
+
+/-- … on a multistream packet and on its padded form (only the last stream differs). -/
+theorem msDecodeFull_pad (os1 os2 : Nat → Oracle) (l : Layout.ChannelLayout) (Fs : Int) (sts : List DecState)
+    (pre : List Packet) (last last' : Packet) (hv : ∀ p ∈ pre, Valid p) (hrel : PktRel last last')
+    (hn : pre.length + 1 = l.nbStreams)
+    (hos : ∀ i, i < pre.length + 1 →
+      OracleShift (os1 i) (os2 i) (firstShift2 ((pre ++ [last]).drop i) ((pre ++ [last']).drop i)))
+    (frame_size fec : Int) (sc : Bool) :
+    OutRel (msDecodeFull os1 l Fs sts (msJoin pre last) (msJoin pre last).length frame_size fec sc)
+           (msDecodeFull os2 l Fs sts (msJoin pre last') (msJoin pre last').length frame_size fec sc) := by
+  rw [← msSerialize_join, ← msSerialize_join]
+  exact msDecodeFull_rel os1 os2 l Fs sts _ _ (by simp) (pairRel_last pre hv last last' hrel) (by simpa using hn)
+    (fun i hi => hos i (by simpa using hi)) frame_size fec sc
 
 end Opus.RepackProofs
